@@ -64,7 +64,7 @@ def make_case(spec, knobs, aux=None, choices=None):
 def gen_cases(prop, seed):
     """all the cases that one seed stands for"""
     rng = random.Random(seed)
-    if prop in ('C01', 'C02') and seed % 4 == 0:
+    if prop in ('C01', 'C02', 'C03') and seed % 4 == 0:
         # a history of construction / query / surgery calls, then run():
         # judged by the history engine, reported under this property
         from .hgen import gen_history
